@@ -94,7 +94,7 @@ def _run(sut, backend, ops):
     def pick(sel, pool):
         return pool[sel % len(pool)] if pool else None
 
-    def do(op):
+    def do(op, forced=None):
         """Apply one primitive operation to the real store and the model; returns a thunk result comparison."""
         kind = op[0]
         if kind == 'write':
@@ -110,7 +110,7 @@ def _run(sut, backend, ops):
             model[id] = {'sender': env.sender, 'flat': want, 'rcpts': list(env.recipients), 'delivered': set(),
                          'attempts': 0, 'ts': ts, 'marked': False}
         elif kind == 'get':
-            id = pick(op[1], live())
+            id = forced or pick(op[1], live())
             if id is None:
                 return
             m = model[id]
@@ -129,7 +129,7 @@ def _run(sut, backend, ops):
             if got != want:
                 fail('load', 'load() = %r, expected %r' % (got, want))
         elif kind == 'incr':
-            id = pick(op[1], live())
+            id = forced or pick(op[1], live())
             if id is None:
                 return
             r = store.increment_attempts(id)
@@ -137,14 +137,14 @@ def _run(sut, backend, ops):
             if r != model[id]['attempts']:
                 fail('increment', 'increment_attempts(%s) returned %r, expected %r' % (id, r, model[id]['attempts']))
         elif kind == 'ts':
-            id = pick(op[1], live())
+            id = forced or pick(op[1], live())
             if id is None:
                 return
             store.set_timestamp(id, float(op[2]))
             model[id]['ts'] = float(op[2])
         elif kind == 'deliver':
             cands = [i for i in live() if not model[i]['marked']]
-            id = pick(op[1], cands)
+            id = forced or pick(op[1], cands)
             if id is None:
                 return
             m = model[id]
@@ -156,7 +156,7 @@ def _run(sut, backend, ops):
             m['delivered'] |= set(idx)
             m['marked'] = True
         elif kind == 'remove':
-            id = pick(op[1], live())
+            id = forced or pick(op[1], live())
             if id is None:
                 return
             store.remove(id)
@@ -176,6 +176,38 @@ def _run(sut, backend, ops):
         if out:
             break
         try:
+            if op[0] == 'pair_load':
+                # load() overlapped with a mutation of one message: messages live throughout must be listed
+                b = op[1]
+                l = live()
+                if not l or b[0] not in ('remove', 'ts', 'incr', 'write'):
+                    continue
+                before = dict((i, model[i]['ts']) for i in l)
+                got = []
+
+                def loader():
+                    got.extend((float(t), i) for t, i in store.load())
+                g1 = gevent.spawn(loader)
+                g2 = gevent.spawn(do, b)
+                gevent.joinall([g1, g2])
+                for g in (g1, g2):
+                    if g.exception is not None:
+                        raise g.exception
+                after = dict((i, model[i]['ts']) for i in live())
+                must = [i for i in before if i in after]
+                got_ids = [i for _, i in got]
+                for i in must:
+                    if i not in got_ids:
+                        fail('overlapped-load-misses-live-message', 'load() overlapped with %r did not list %s (listed %r)'
+                             % (b, i, got_ids))
+                        break
+                for t, i in got:
+                    if i not in before and i not in after:
+                        fail('overlapped-load-lists-unknown', 'load() listed %r' % (i,))
+                    elif i in must and t not in (before.get(i), after.get(i)):
+                        fail('overlapped-load-timestamp', 'load() listed %s with %r' % (i, t))
+                nontrivial = nontrivial or len(l) >= 2
+                continue
             if op[0] == 'pair':
                 # two operations on different ids, overlapped in two greenlets
                 a, b = op[1], op[2]
@@ -185,14 +217,13 @@ def _run(sut, backend, ops):
                 ida = pick(a[1], l)
                 rest = [i for i in l if i != ida]
                 idb = pick(b[1], rest)
-                a2 = [a[0], l.index(ida)] + list(a[2:])
-                b2 = [b[0], l.index(idb)] + list(b[2:])
+                a2, b2 = a, b
                 if 'remove' in (a[0], b[0]) or (a[0] == 'deliver' and model[ida]['marked']) or \
                         (b[0] == 'deliver' and model[idb]['marked']):
                     continue
                 # model effects are applied inside do(); run the real calls concurrently
-                g1 = gevent.spawn(do, a2)
-                g2 = gevent.spawn(do, b2)
+                g1 = gevent.spawn(do, a2, ida)
+                g2 = gevent.spawn(do, b2, idb)
                 gevent.joinall([g1, g2])
                 for g in (g1, g2):
                     if g.exception is not None:
@@ -239,20 +270,22 @@ _pairable = st.one_of(
     st.tuples(st.just('ts'), _idx, _ts).map(list),
     st.tuples(st.just('deliver'), _idx, st.lists(st.integers(0, 4), min_size=1, max_size=3), st.booleans()).map(list),
 )
-_op = st.one_of(_prim, _prim, _prim, st.tuples(st.just('pair'), _pairable, _pairable).map(list))
+_mut = st.one_of(st.tuples(st.just('remove'), _idx).map(list), st.tuples(st.just('ts'), _idx, _ts).map(list),
+                 st.tuples(st.just('incr'), _idx).map(list), st.tuples(st.just('write'), _wspec, _ts).map(list))
+_op = st.one_of(_prim, _prim, _prim, st.tuples(st.just('pair'), _pairable, _pairable).map(list),
+                st.tuples(st.just('pair_load'), _mut).map(list))
 _case = st.tuples(st.sampled_from(BACKENDS),
-                  st.tuples(st.tuples(st.just('write'), _wspec, _ts).map(list),
-                            st.tuples(st.just('write'), _wspec, _ts).map(list),
-                            st.lists(_op, max_size=22)).map(lambda t: [t[0], t[1]] + t[2]))
+                  st.tuples(st.lists(st.tuples(st.just('write'), _wspec, _ts).map(list), min_size=2, max_size=5),
+                            st.lists(_op, max_size=22)).map(lambda t: t[0] + t[1]))
 
 
 def run_shard(ctx):
     def one(v):
         backend, ops = v
         fails, nt = run_ops(backend, ops)
-        ctx.record(repr(v), nt, labels=['backend=' + backend] + (['overlap'] if any(o[0] == 'pair' for o in ops) else []),
+        ctx.record(repr(v), nt, labels=['backend=' + backend] + (['overlap'] if any(o[0] in ('pair', 'pair_load') for o in ops) else []),
                    case=lambda: {'backend': backend, 'ops': ops}, failures=fails)
-    hyp.drive(ctx, _case, one, ctx.n(1500, 25000))
+    hyp.drive(ctx, _case, one, ctx.n(3000, 40000))
 
 
 def replay(case):
@@ -274,6 +307,8 @@ def replay(case):
             elif o[0] == 'load':
                 ops.append(['load'])
             elif o[0] == 'pair' and len(o) == 3 and o[1] and o[2]:
+                ops.append(o)
+            elif o[0] == 'pair_load' and len(o) == 2 and o[1]:
                 ops.append(o)
         except Exception:
             continue
